@@ -53,7 +53,7 @@ fn one<'s>(acc: &mut Acc, g: &G, p: &BP<'s, &'s str, Rich<'s, char>>, buf: &'s B
         None => return,
     };
     let amb = m.stats.ambiguous_a1 || m.stats.ambiguous_a2 || m.stats.ambiguous_a9;
-    let mut report = |acc: &mut Acc, msg: String| {
+    let report = |acc: &mut Acc, msg: String| {
         if amb {
             acc.ambiguous += 1;
         } else {
